@@ -43,25 +43,25 @@ ASAN_NOLEAK = "halt_on_error=1:abort_on_error=0:detect_leaks=0:exitcode=99:alloc
 
 PLANS = {
     "C01": [hist("bound", 10, 480000, 7500000), hist("evict", 2, 480000, 4500000), hist("extreme", 2, 320000, 3000000),
-            hist("extreme", 2, 320000, 3000000, mode="wrap")],
+            hist("extreme", 2, 320000, 3000000, mode="wrap"), job("realheap", "native", 2, [], budget={"quick": 300000, "thorough": 5000000})],
     "C02": [hist("bound", 8, 480000, 7500000), hist("mutate", 3, 480000, 4500000), hist("ledger", 1, 480000, 3000000), hist("extreme", 2, 320000, 3000000),
-            hist("extreme", 2, 320000, 3000000, mode="wrap")],
+            hist("extreme", 2, 320000, 3000000, mode="wrap"), job("realheap", "native", 2, [], budget={"quick": 400000, "thorough": 6000000})],
     "C03": [hist("evict", 14, 480000, 9000000), hist("mixed", 2, 480000, 4500000)],
     "C04": [hist("map", 12, 480000, 9000000), hist("realloc", 2, 480000, 4500000), hist("mixed", 2, 480000, 4500000)],
-    "C05": [hist("order", 12, 480000, 9000000), hist("realloc", 2, 480000, 4500000), hist("mixed", 2, 480000, 4500000)],
+    "C05": [job("interleave", "native", 4, [], budget={"quick": 300000, "thorough": 5000000}), hist("order", 12, 480000, 9000000), hist("realloc", 2, 480000, 4500000), hist("mixed", 2, 480000, 4500000)],
     "C06": [hist("ledger", 10, 480000, 6000000), hist("mixed", 2, 480000, 3000000),
             hist("ledger", 8, 100000, 2000000, mode="asan", reports_to=MEM),
             hist("ledger", 16, 300, 4000, mode="miri", reports_to=MEM, extra=["--bare", "1"]),
             enum_iter("native", 4, 5, False, tiers=("quick",)), enum_iter("native", 8, 8, False, tiers=("thorough",))],
-    "C07": [hist("realloc", 10, 480000, 6000000), hist("map", 2, 480000, 3000000),
+    "C07": [job("interleave", "native", 4, [], budget={"quick": 300000, "thorough": 5000000}), job("interleave", "asan", 2, [], budget={"quick": 60000, "thorough": 1500000}, reports_to=MEM), hist("realloc", 10, 480000, 6000000), hist("map", 2, 480000, 3000000),
             hist("realloc", 10, 100000, 2000000, mode="asan", reports_to=MEM), hist("big", 2, 60000, 1500000, mode="asan", reports_to=MEM),
             hist("realloc", 16, 300, 4000, mode="miri", reports_to=MEM, extra=["--bare", "1"])],
     "C12": [enum_iter("native", 12, 7, False, random=400, tiers=("quick",)), enum_iter("native", 16, 10, False, random=5000, tiers=("thorough",)),
             enum_iter("asan", 4, 5, False, random=100, tiers=("quick",)), enum_iter("asan", 12, 8, False, random=2000, tiers=("thorough",)),
             enum_iter("miri", 16, 2, False, extra=2, bare=True, tiers=("quick",)), enum_iter("miri", 16, 4, False, extra=2, bare=True, tiers=("thorough",)),
             hist("order", 2, 480000, 3000000)],
-    "C13": [hist("capacity", 14, 480000, 7500000), hist("realloc", 2, 480000, 3000000)],
-    "C14": [hist("clone", 12, 480000, 7500000), hist("mixed", 2, 480000, 3000000),
+    "C13": [job("churn", "native", 4, [], budget={"quick": 1000000, "thorough": 25000000}, budget_arg="ops"), job("interleave", "native", 2, [], budget={"quick": 200000, "thorough": 3000000}), hist("capacity", 14, 480000, 7500000), hist("realloc", 2, 480000, 3000000)],
+    "C14": [job("interleave", "native", 2, [], budget={"quick": 200000, "thorough": 3000000}), hist("clone", 12, 480000, 7500000), hist("mixed", 2, 480000, 3000000),
             hist("clone", 6, 100000, 2000000, mode="asan", reports_to=MEM),
             hist("clone", 16, 300, 4000, mode="miri", reports_to=MEM, extra=["--bare", "1"])],
     "C15": [enum_retain("native", 8, 9, random=300, tiers=("quick",)), enum_retain("native", 16, 12, random=4000, tiers=("thorough",)),
@@ -80,7 +80,7 @@ PLANS = {
             hist("mixed", 4, 200000, 3000000),
             job("sharedref_threads", "miri", 12, ["--threads", "3"], budget={"quick": 2, "thorough": 30}, budget_arg="states", reports_to=("C19",)),
             job("sharedref_threads", "tsan", 8, ["--threads", "4"], budget={"quick": 300, "thorough": 5000}, budget_arg="states", reports_to=("C19",), tiers=("thorough",))],
-    "C20": [hist("hash", 12, 480000, 7500000), hist("realloc", 2, 480000, 3000000), hist("evict", 2, 480000, 3000000)],
+    "C20": [job("hashscale", "native", 4, [], budget={"quick": 3000, "thorough": 100000}, budget_arg="rounds"), hist("hash", 12, 480000, 7500000), hist("realloc", 2, 480000, 3000000), hist("evict", 2, 480000, 3000000)],
     "C08": [msjob("memsize", "debug0", 12, [], budget={"quick": 2000, "thorough": 60000}, budget_arg="rounds"),
             job("memsize_total", "debug0", 18, ["--case", "{shard}", "--thread", "main"], budget={"quick": 1000000, "thorough": 4000000}, budget_arg="n", verdict="exit", prop="C08", bin="lruverif_tot"),
             job("memsize_total", "debug0", 18, ["--case", "{shard}", "--thread", "small"], budget={"quick": 1000000, "thorough": 4000000}, budget_arg="n", verdict="exit", prop="C08", bin="lruverif_tot"),
@@ -96,14 +96,14 @@ LEVELS.update({"C13": "fault_enumeration", "C16": "fault_enumeration", "C17": "f
 # Non-vacuity floors: if the monitors did not see the situations the property is about, the run is inconclusive.
 FLOORS = {
     "C01": {"evaluations": {"quick": 300000, "thorough": 10000000}, "distinct": 300, "exact_fit": 500, "one_over": 200, "grow_the_lru": 50, "limit_cur_minus_1": 50, "limit_zero": 50, "limit_max": 50},
-    "C02": {"evaluations": {"quick": 300000, "thorough": 10000000}, "distinct": 100, "replacements": 1000, "reallocations": 1000, "sum:c11_class0": 200, "sum:c11_class2": 200, "sum:c11_class3": 100, "sum:c11_class4": 100},
+    "C02": {"evaluations": {"quick": 300000, "thorough": 10000000}, "distinct": 100, "replacements": 1000, "reallocations": 1000, "sum:c11_class0": 200, "sum:c11_class2": 200, "sum:c11_class3": 100, "sum:c11_class4": 100, "c02_realheap_events": 500000},
     "C03": {"evaluations": {"quick": 300000, "thorough": 10000000}, "distinct": 200, "multi_evictions": 50, "replace_then_evict": 20, "grow_the_lru": 20, "exact_fit_evicts_nothing": 20},
     "C04": {"evaluations": {"quick": 300000, "thorough": 10000000}, "distinct": 300, "each:lookup_": 50, "reallocations": 1000, "max:const_hasher_max_len": 20},
     "C05": {"evaluations": {"quick": 300000, "thorough": 10000000}, "distinct": 100, "each:promote_": 5, "order_checked_after_realloc_len10": 100, "debug_compared": 100},
     "C06": {"evaluations": {"quick": 300000, "thorough": 10000000}, "distinct": 100, "c12_dropped_after_prefix": 500},
     "C07": {"evaluations": {"quick": 300000, "thorough": 10000000}, "distinct": 300, "reallocations": {"quick": 10000, "thorough": 300000}, "max:max_len": {"quick": 100, "thorough": 1000}},
     "C12": {"evaluations": {"quick": 20000, "thorough": 200000}, "distinct": 5000, "c12_past_exhaustion": 1000, "c12_dropped_after_prefix": 1000},
-    "C13": {"evaluations": {"quick": 50000, "thorough": 1500000}, "distinct": 60, "c13_auto_growth": 500, "c13_shrunk": 500, "c13_alloc_failures_injected": 200, "c13_try_reserve_err_capacity": 200, "c13_with_capacity_inserts": 500},
+    "C13": {"evaluations": {"quick": 50000, "thorough": 1500000}, "distinct": 60, "c13_auto_growth": 500, "c13_shrunk": 500, "c13_alloc_failures_injected": 200, "c13_try_reserve_err_capacity": 200, "c13_with_capacity_inserts": 500, "c13_churn_ops": {"quick": 3000000, "thorough": 90000000}},
     "C14": {"evaluations": {"quick": 100000, "thorough": 3000000}, "distinct": 100, "c14_ops_with_sibling_caches": 50000},
     "C15": {"evaluations": {"quick": 2000, "thorough": 20000}, "distinct": 60},
     "C16": {"evaluations": {"quick": 200000, "thorough": 5000000}, "distinct": 1000, "each:c16_fired_": 20, "c16_hash_panic_in_explicit_rebuild": 1000, "c16_hash_panic_in_growing_insert": 300,
@@ -112,7 +112,7 @@ FLOORS = {
     "C18": {"evaluations": 128, "distinct": 128, "c18_table_rows": 64, "c18_rows_expected_send": 8, "c18_rows_expected_not_send": 56, "c18_moved_across_threads": 20},
     "C19": {"evaluations": {"quick": 5000, "thorough": 80000}, "distinct": 100, "c19_shared_ops_under_write_trap": 500000, "c19_thread_runs_under_write_trap": 10000, "c19_state_empty": 50, "c19_state_single": 50,
             "c19_state_tombstoned": 50, "c19_state_const_hasher": 200, "c19_thread_runs_race_detector": 20, "max:c19_max_len": 30},
-    "C20": {"evaluations": {"quick": 300000, "thorough": 10000000}, "distinct": 150, "c20_rebuilds": 2000, "c20_with_departures": 5000},
+    "C20": {"evaluations": {"quick": 300000, "thorough": 10000000}, "distinct": 150, "c20_rebuilds": 2000, "c20_with_departures": 5000, "c20_scale_ops_n16384": 5000, "c20_scale_ops_n1024": 5000, "c20_scale_rebuilds": 500},
     "C08": {"evaluations": {"quick": 500000, "thorough": 20000000}, "distinct": 3000, "c08_bulk_shapes_checked": 100000, "c08_totality_cases_debug0": 36, "c08_totality_cases_native": 18},
     "C09": {"evaluations": {"quick": 100000, "thorough": 4000000}, "distinct": 400, "c09_exact_values": 80000, "c09_bounded_values": 5000, "c09_values_holding_memory": 50000},
     "C10": {"evaluations": {"quick": 100000, "thorough": 3000000}, "distinct": 40, "each:c10_": 100},
